@@ -28,8 +28,20 @@ regs = {}
 for r, (fm, cls) in FACT.items():
     if fm in sys.modules:
         t = getattr(sys.modules[fm], cls).transcoders
-        regs[r] = {"keys": sorted(keynum(k) for k in t),
-                   "own": all(True for k in t)}
+        fac = getattr(sys.modules[fm], cls)
+        bad = []
+        for k in t:
+            for name in dir(fac):
+                if name.startswith("supports_") or name.startswith("make_"):
+                    try:
+                        ans = getattr(fac, name)(k)
+                        if name.startswith("supports_") and ans is not True:
+                            bad.append([keynum(k), name, "answers " + repr(ans)])
+                        if name.startswith("make_") and ans is None:
+                            bad.append([keynum(k), name, "returns None"])
+                    except Exception as ex:  # noqa
+                        bad.append([keynum(k), name, "raises " + type(ex).__name__])
+        regs[r] = {"keys": sorted(keynum(k) for k in t), "dispatch_bad": bad[:8]}
     else:
         regs[r] = None
 print(json.dumps({"loaded": loaded, "regs": regs}))
